@@ -1,6 +1,8 @@
 package main
 
 import (
+	. "verifharness/internal/core"
+
 	"fmt"
 	"math"
 	"strings"
@@ -61,10 +63,10 @@ func c15Durations(c *Ctx) {
 		rt := durUnmarshal(text)
 		c.Count("dur_marshal/" + class)
 		c.Add(gm, &Case{
-			Key:   map[string]string{"op": "duration_roundtrip", "class": class},
-			Input: map[string]any{"d": fmt.Sprint(d)},
-			Obs:   map[string]any{"text": text, "roundtrip": rt},
-			Term:  fmt.Sprintf("{| mc_d := %s; mc_text := %s; mc_rt := %s |}", emit.Z(d), emit.OptStr(text), emit.OptZ(rt)),
+			Key:     map[string]string{"op": "duration_roundtrip", "class": class},
+			Input:   map[string]any{"d": fmt.Sprint(d)},
+			Obs:     map[string]any{"text": text, "roundtrip": rt},
+			Term:    fmt.Sprintf("{| mc_d := %s; mc_text := %s; mc_rt := %s |}", emit.Z(d), emit.OptStr(text), emit.OptZ(rt)),
 			Trivial: d == 0,
 		})
 	}
@@ -77,10 +79,10 @@ func c15Durations(c *Ctx) {
 		}
 		c.Count("dur_unmarshal_result/" + k)
 		c.Add(gu, &Case{
-			Key:   map[string]string{"op": "duration_parse", "class": class},
-			Input: map[string]any{"text": s},
-			Obs:   map[string]any{"result": res},
-			Term:  fmt.Sprintf("{| uc_text := %s; uc_res := %s |}", emit.OptStr(s), emit.OptZ(res)),
+			Key:     map[string]string{"op": "duration_parse", "class": class},
+			Input:   map[string]any{"text": s},
+			Obs:     map[string]any{"result": res},
+			Term:    fmt.Sprintf("{| uc_text := %s; uc_res := %s |}", emit.OptStr(s), emit.OptZ(res)),
 			Trivial: res == nil && s != nil && !strings.Contains(*s, "P"),
 		})
 	}
